@@ -20,7 +20,7 @@ func init() {
 	Register(&Spec{
 		ID:        "C14",
 		Technique: "runtime monitoring: tiling/position invariant monitor over lexer output on hostile byte strings; range-slice re-parse monitor over ASTs of generated configurations",
-		Rule: "cases alternate between (a) a byte string (repo corpus file, rendered generated config/expression, or a 1-6 edit mutant of one incl. invalid UTF-8, CR/LF mixes, BOMs) lexed in config, expression and template mode from a random start position, judged by the tiling + independent line/column counter invariant, and (b) an error-free generated configuration whose every recorded range (names, '=', labels, braces, call/index/for/splat markers, every expression) is sliced and re-parsed; 1 case in 12 runs hcl.RangeScanner (lines, grapheme clusters, cluster chunks with trailing skips; whole buffer or fragment at a start position) and requires ordered non-overlapping ranges, Bytes() equal to the buffer at Range(), positions equal to an independent count, and full coverage; " +
+		Rule: "cases alternate between (a) a byte string (repo corpus file, rendered generated config/expression, or a 1-6 edit mutant of one incl. invalid UTF-8, CR/LF mixes, BOMs) lexed in config, expression and template mode from a random start position, judged by the tiling + independent line/column counter invariant, and (b) an error-free generated configuration whose every recorded range (names, '=', labels, braces, call/index/for/splat markers, every expression) is sliced and re-parsed; 1 case in 12 checks the per-step ranges of the stand-alone traversal parsers (slice to the step, tile the text, equal the expression parser's); 1 case in 12 runs hcl.RangeScanner (lines, grapheme clusters, cluster chunks with trailing skips; whole buffer or fragment at a start position) and requires ordered non-overlapping ranges, Bytes() equal to the buffer at Range(), positions equal to an independent count, and full coverage; " +
 			"non-trivial = the token stream has >= 4 tokens (a) or the AST has >= 3 expression nodes (b); distinct by input hash",
 		Assumptions: []string{"go-textseg grapheme segmentation is the definition of a column", "cty value equality"},
 		Quick:       Plan{Batches: 16, PerBatch: 1500, MinNonTrivial: 4000},
@@ -37,6 +37,10 @@ func c14Case(c *core.Case) {
 	}
 	if c.Index%12 == 7 {
 		c14Scanner(c)
+		return
+	}
+	if c.Index%12 == 1 {
+		c14TraversalRanges(c)
 		return
 	}
 	src := pickSeed(c, false)
